@@ -23,7 +23,8 @@ RULE = ("job = seed -> (client settings, server settings) from the restriction "
         "before and compared field by field after; validate(validate(s)) == "
         "validate(s); every cipher implementation named in the result is "
         "loadable.  distinct = digest(settings pair, key); non-trivial = the "
-        "predicate held (connect clause exercised)")
+        "predicate held (connect clause exercised)"
+        " Session cache / ticket keys / a shared external PSK are drawn next to the lattice, and a second connection between the same settings offers the first one's session: it must connect as well.")
 LEVEL_TEXT = ("Seeded exploration over settings pairs.  The connect clause "
               "is judged by a deliberately conservative predicate (says "
               "'don't know' whenever the documented semantics leave room), "
